@@ -293,7 +293,7 @@ def group_operator(tlist):
 def group_identifier_list(tlist):
     m_role = T.Keyword, ('null', 'role')
     sqlcls = (sql.Function, sql.Case, sql.Identifier, sql.Comparison,
-              sql.IdentifierList, sql.Operation)
+              sql.IdentifierList, sql.Operation, sql.TypedLiteral)
     ttypes = (T_NUMERICAL + T_STRING + T_NAME
               + (T.Keyword, T.Comment, T.Wildcard))
 
